@@ -19,9 +19,12 @@ CLAIM = dict(
          "any centres, any duplicate-free R list containing the selected replicas and data in any field (no Hermiticity "
          "needed); the contract itself is PROVED for the exact DFT on every mesh in every field with the needed primitive "
          "roots of unity (roundtrip_exact_dft), so only 'numpy/FFTW compute the DFT' is assumed; the code's tolerance test |d-dmin|<tol is decided exactly in Q; if every selected replica and its "
-         "mirror image lie inside the replica search box, the selection for -s is the mirror image of the selection for s "
-         "with equal Ndegen (hence X(-R)=X(R)^dagger for Hermitian input) - and a proved counterexample shows that this "
-         "hypothesis is needed (finding F12); exclude_zeros (last step of do_ws_dist) keeps exactly the R vectors with some "
+         "mirror image lie inside the replica search box (both directions, all grid points), then for Hermitian mesh data "
+         "and the exact DFT the matrices produced by q_to_R satisfy X_ba(-R) = conj X_ab(R) for EVERY R (hermitian_of_mirror: "
+         "mirror selection per class with equal Ndegen, sum over classes, conjugation of the DFT, symmetric rounding of the "
+         "shifts of (a,b) and (b,a)) - and a proved counterexample shows that the hypothesis is needed (finding F12); "
+         "remap_XX_R / do_ws_dist (fold an existing R-space matrix onto the mesh, redistribute over the replicas) keeps every "
+         "k-space sum at the mesh points (ws_dist_preserves_mesh_values); exclude_zeros (last step of do_ws_dist) keeps exactly the R vectors with some "
          "|element| > tolerance and splits every k-space sum into kept + dropped (no sum changes when only zeros are dropped), "
          "with a proved counterexample for the rule 'largest element > tolerance' without abs.  The model is tied to the code by running both on the same exact inputs "
          "(iRvec lists in code order, Ndegen, shift classes, remap tables and weights as exact rationals, mesh slots and "
@@ -40,8 +43,9 @@ TRUSTED = [
     "both libraries on every run",
     "modelled: Rvectors.exclude_zeros (kept R vectors, exact on Gaussian-rational blocks incl. negative real, purely "
     "imaginary, tiny and at-tolerance entries)",
-    "not modelled (oracle only): conj_XX_R/reverseR, remap_XX_R / System_R.do_ws_dist / from_sparse pipeline (oracle on sparse "
-    "structured models and on dense random ones), get_system_w90 glue, select_left/select_right sub-blocks",
+    "modelled: remap_XX_R / System_R.do_ws_dist for every matrix element (exact comparison of the new R list and all new "
+    "matrix elements on Gaussian-integer data, old R lists that collide on the mesh included)",
+    "not modelled (oracle only): conj_XX_R/reverseR, from_sparse, get_system_w90 glue, select_left/select_right sub-blocks",
     "the code computes distances in doubles; the model uses exact rationals from the Gram matrix; for hexagonal/Gram-defined "
     "lattices the code receives a float Cholesky factor of the rational Gram matrix",
 ]
@@ -226,7 +230,7 @@ def run_batched(ctx, gens):
 
 
 def corr(ctx):
-    run_batched(ctx, [corr_ws, corr_rvec, corr_placek, corr_qtor, corr_exclz])
+    run_batched(ctx, [corr_ws, corr_rvec, corr_placek, corr_qtor, corr_exclz, corr_wsdist])
 
 
 def corr_ws(ctx):
@@ -234,7 +238,7 @@ def corr_ws(ctx):
     from wannierberri.fourier.rvectors import WignerSeitz
     rng = ctx.rng
     lines, expect, cases = [], [], []
-    for it in range(ctx.n(25, 400)):
+    for it in range(ctx.n(25, 300)):
         kind, g6, L = gen_lattice(rng)
         mp = gen_mesh(rng, ctx.n(18, 60))
         tolf, tolq = rng.choice(TOLS)
@@ -281,7 +285,7 @@ def corr_rvec(ctx):
         # simple cubic, centre at the cell corner/edge/face midpoints: 8-, 4- and 2-fold ties
         ("cubic", one, np.eye(3), [3, 2, 1], 1e-5, Fr(1, 100000), np.array([[0, 0, 0], [.5, .5, .5], [.5, .5, 0], [.5, 0, 0]])),
     ]
-    for it in range(ctx.n(20, 300)):
+    for it in range(ctx.n(20, 220)):
         if it < len(fixed):
             kind, g6, L, mp, tolf, tolq, cf = fixed[it]
             L = np.array(L, dtype=float)
@@ -568,6 +572,88 @@ def corr_exclz(ctx):
         if o != e:
             ctx.mismatch(f"exclude_zeros: kept R vectors differ: model={o[:150]} code={e[:150]}", dict(line=l[:400], case=c))
 
+
+def corr_wsdist(ctx):
+    """System_R.do_ws_dist (new Rvectors + remap_XX_R of every matrix + exclude_zeros) on Gaussian-integer matrices over an
+    arbitrary old R list vs the model's remapXXR: the new R list and every new matrix element, exactly"""
+    from wannierberri.system.system_R import System_R
+    rng = ctx.rng
+    lines, expect, cases = [], [], []
+    for it in range(ctx.n(8, 80)):
+        kind, g6, L = gen_lattice(rng)
+        mp = gen_mesh(rng, ctx.n(8, 18))
+        tolf, tolq = rng.choice([t for t in TOLS if t[0] > 0])
+        cf = gen_centres(rng, far=0.1)[:rng.choice([1, 2, 2, 3])]
+        nw = len(cf)
+        nold = rng.randint(1, 8)
+        Rold = {(0, 0, 0)}
+        while len(Rold) < nold:
+            m = rng.choice([1, 2, 3])
+            Rold.add(tuple(rng.randint(-m, m) for _ in range(3)))
+        ham = {R: {(a, b): complex(rng.randint(-5, 5), rng.randint(-5, 5)) for a in range(nw) for b in range(nw)} for R in Rold}
+        case = dict(kind=kind, lattice=L, mp=mp, tol=tolf, centres=cf, Ham={str(R): {str(k): v for k, v in d.items()} for R, d in ham.items()})
+        if rounding_near_half(cf, tolf):
+            ctx.count("corr.wsdist.skipped_rounding_near_half")
+            continue
+        with ctx.attempt("System_R.do_ws_dist", case):
+            rv0, shifts = build_rvec(L, mp, tolf, cf)
+            if near_threshold(L, mp, tolf, shifts):
+                ctx.count("corr.wsdist.skipped_near_threshold")
+                continue
+            with quiet():
+                s = System_R.from_sparse(real_lattice=L, wannier_centers_red=cf, matrices={"Ham": ham})
+                # the system recomputes the reduced centres from the Cartesian ones; feed the model those
+                cred = np.array(s.wannier_centers_red)
+                iR_old = s.rvec.iRvec.copy()
+                X_old = s.get_R_mat("Ham").copy()
+                s.do_ws_dist(mp_grid=mp, ws_dist_tol=tolf)
+            if np.abs(cred - cf).max() > 0:
+                if rounding_near_half(cred, tolf):
+                    continue
+                rv0, shifts = build_rvec(L, mp, tolf, cred)
+                if near_threshold(L, mp, tolf, shifts):
+                    continue
+            pairs = "#".join(f"{a},{b}:" + ";".join(f"{int(z.real)},{int(z.imag)}" for z in X_old[:, a, b])
+                             for a in range(nw) for b in range(nw))
+            lines.append(f"wsdist {rats(g6)} {ints(mp)} {rat(tolq)} {exact_rows(cred)} {intss(iR_old)} {pairs}")
+            new = {tuple(int(x) for x in R): s.get_R_mat("Ham")[i] for i, R in enumerate(s.rvec.iRvec)}
+            expect.append((new, nw))
+            cases.append(case)
+            ctx.count(f"corr.wsdist.nRold={len(iR_old)}")
+            ncoll = len(iR_old) - len({tuple(r) for r in (iR_old % np.array(mp))})
+            ctx.count("corr.wsdist.old_R_collide_on_mesh" if ncoll else "corr.wsdist.no_collision")
+    out = yield lines
+    for l, o, e, c in zip(lines, out, expect, cases):
+        ctx.case(signature=l, nontrivial=True)
+        new, nw = e
+        parts = o.split(" | ")
+        if len(parts) != 2:
+            ctx.mismatch("do_ws_dist: malformed model output " + o[:100], dict(line=l[:300]))
+            continue
+        mR = [tuple(int(t) for t in x.split(",")) for x in parts[0].split(";")]
+        blocks = parts[1].split("#")
+
+        def cplx(sx):
+            return np.array([complex(float(Fr(t.split(",")[0])), float(Fr(t.split(",")[1]))) for t in sx.split(";")])
+        M = np.array([cplx(b) for b in blocks]).reshape(nw, nw, len(mR))      # [a,b,iR]
+        missing = [R for R in new if R not in mR]
+        if missing:
+            ctx.mismatch(f"do_ws_dist: the code keeps R vectors that the model does not select: {missing[:4]}", dict(line=l[:300], case=c))
+            continue
+        bad = None
+        for i, R in enumerate(mR):
+            if R in new:
+                d = np.abs(M[:, :, i] - new[R]).max()
+                if d > 1e-12 * (1 + np.abs(M).max()):
+                    bad = f"X({R}) differs by {d:.3e}"
+                    break
+            elif np.abs(M[:, :, i]).max() > 1e-8:
+                bad = f"the code dropped R={R} although the model has |X(R)| = {np.abs(M[:, :, i]).max():.3e} > 1e-8 there"
+                break
+        if bad:
+            ctx.mismatch("do_ws_dist vs model remapXXR: " + bad, dict(line=l[:300], case=c))
+
+
 # ------------------------------------------------------------------------------------------------
 # property oracle on the real code
 
@@ -621,7 +707,7 @@ def oracle(ctx, scale):
 def oracle_roundtrip(ctx, scale):
     rng = ctx.rng
     nprng = ctx.nprng()
-    for it in range(ctx.n(150, 2000) * scale):
+    for it in range(ctx.n(150, 1500) * scale):
         kind, L = rand_lattice_float(rng, nprng)
         mp = gen_mesh(rng, ctx.n(30, 80))
         nk = mp[0] * mp[1] * mp[2]
